@@ -155,3 +155,20 @@ Theorem C03_bdf_success_means_xend :
     Bdf.r_status r = Success -> Bdf.r_x r = xend.
 Proof. exact @BdfReal.solve_status. Qed.
 Print Assumptions C03_bdf_success_means_xend.
+
+(* ---------------- BDF: monotone and never past xend, whole run (proofs/BdfStepBounds.v) ----------------
+   Every iteration moves the abscissa in the direction of integration (or leaves it where it is: a rejected attempt) and
+   never past xend; hence so does every run.  Real-number semantics, any right-hand side / Jacobian / callback. *)
+Require IVP.proofs.BdfStepBounds.
+Theorem C03_bdf_run_discipline :
+  forall (H : Type) (P : Bdf.params (F:=R)) n f jacf atolv rtolv newton_tol maxiter xend direction hmax hmin
+         (cb : H -> R -> R -> list R -> option (list R * R * R) -> H * flag R * list R),
+    direction = 1 \/ direction = -1 -> 0 <= hmax -> hmin <= hmax ->
+    forall fuel s r, 0 <= direction * (xend - Bdf.s_x _ s) ->
+    Bdf.loop Rops P n f jacf atolv rtolv newton_tol maxiter xend direction hmax hmin cb fuel s = Some r ->
+    0 <= direction * (xend - Bdf.r_x r) /\ 0 <= direction * (Bdf.r_x r - Bdf.s_x _ s).
+Proof.
+  intros H P n f jacf atolv rtolv nt mi xend d hmax hmin cb Hd Hm Hn fuel s r HI Hl.
+  exact (BdfStepBounds.loop_bounds P n f jacf atolv rtolv nt mi xend d hmax hmin cb Hd Hm Hn fuel s r HI Hl).
+Qed.
+Print Assumptions C03_bdf_run_discipline.
